@@ -9,7 +9,7 @@ Import ListNotations.
 Open Scope string_scope.
 
 (* ---- outbound context = inbound data overlaid with the published variables;
-        versions bumped exactly on the published leaf paths ---- *)
+        versions bumped exactly on the published paths (leaves and dict nodes) ---- *)
 Theorem C05_outbound_values : forall c pub k,
   NoDup (map fst pub) ->
   lookup k (cdata (outbound c pub)) =
@@ -18,23 +18,23 @@ Proof. exact outbound_data. Qed.
 Print Assumptions C05_outbound_values.
 
 Theorem C05_outbound_versions : forall c pub q,
-  getv q (cvers (outbound c pub)) = (getv q (cvers c) + occ q (leaf_paths pub))%N.
+  getv q (cvers (outbound c pub)) = (getv q (cvers c) + occ q (pub_paths pub))%N.
 Proof. exact outbound_vers. Qed.
 Print Assumptions C05_outbound_versions.
 
 Theorem C05_outbound_versions_exact : forall c pub q,
-  NoDup (leaf_paths pub) ->
-  (In q (leaf_paths pub) -> getv q (cvers (outbound c pub)) = (getv q (cvers c) + 1)%N) /\
-  (~ In q (leaf_paths pub) -> getv q (cvers (outbound c pub)) = getv q (cvers c)).
+  NoDup (pub_paths pub) ->
+  (In q (pub_paths pub) -> getv q (cvers (outbound c pub)) = (getv q (cvers c) + 1)%N) /\
+  (~ In q (pub_paths pub) -> getv q (cvers (outbound c pub)) = getv q (cvers c)).
 Proof. exact outbound_vers_exact_both. Qed.
 Print Assumptions C05_outbound_versions_exact.
 
-(* every published leaf (at any depth) gets a strictly higher version *)
-Theorem C05_published_leaf_bumped : forall c pub ks x,
-  at_path ks (VDict pub) = Some x -> is_dict x = false ->
-  (getv (path_str "" ks) (cvers c) < getv (path_str "" ks) (cvers (outbound c pub)))%N.
-Proof. exact published_leaf_bumped. Qed.
-Print Assumptions C05_published_leaf_bumped.
+(* every published position (leaf or dict node, at any depth) gets a strictly higher version *)
+Theorem C05_published_position_bumped : forall c pub k t x,
+  at_path (k :: t) (VDict pub) = Some x ->
+  (getv (path_str "" (k :: t)) (cvers c) < getv (path_str "" (k :: t)) (cvers (outbound c pub)))%N.
+Proof. exact published_position_bumped. Qed.
+Print Assumptions C05_published_position_bumped.
 
 (* ---- merge by version ---- *)
 (* one level of the recursion, any prefix: keys of one side only are kept/added, common
@@ -63,17 +63,27 @@ Theorem C05_merge_versions_max : forall r l q,
 Proof. exact getv_merge_vers. Qed.
 Print Assumptions C05_merge_versions_max.
 
-(* ---- a value published inside a branch is not replaced by an inherited copy ---- *)
+(* ---- a value published inside a branch is not replaced by an inherited copy: any depth, any
+        previous shape of the variable, both argument orders (unconditional since fix 883c1b22) ---- *)
 Theorem C05_no_stale_overwrite : forall c pub o k t x,
   wf_ctx c -> wf_value (VDict pub) -> wf_ctx o ->
   k <> TASK_EXECUTION_KEY ->
   at_path (k :: t) (VDict pub) = Some x -> is_dict x = false ->
-  (getv (path_str "" (k :: t)) (cvers o) <= getv (path_str "" (k :: t)) (cvers c))%N ->
-  shape_ok (k :: t) (VDict (cdata o)) ->
+  not_newer_along (cvers o) (cvers c) (join_path "" k) t ->
   at_path (k :: t) (VDict (cdata (merge_ctx (outbound c pub) o))) = Some x /\
   at_path (k :: t) (VDict (cdata (merge_ctx o (outbound c pub)))) = Some x.
 Proof. exact no_stale_overwrite. Qed.
 Print Assumptions C05_no_stale_overwrite.
+
+Theorem C05_no_stale_overwrite_inherited : forall c pub o k t x,
+  wf_ctx c -> wf_value (VDict pub) -> wf_ctx o ->
+  k <> TASK_EXECUTION_KEY ->
+  at_path (k :: t) (VDict pub) = Some x -> is_dict x = false ->
+  (forall q, (getv q (cvers o) <= getv q (cvers c))%N) ->
+  at_path (k :: t) (VDict (cdata (merge_ctx (outbound c pub) o))) = Some x /\
+  at_path (k :: t) (VDict (cdata (merge_ctx o (outbound c pub)))) = Some x.
+Proof. exact no_stale_overwrite_inherited. Qed.
+Print Assumptions C05_no_stale_overwrite_inherited.
 
 Theorem C05_no_stale_overwrite_flat : forall c pub o k x,
   wf_ctx c -> wf_value (VDict pub) -> wf_ctx o ->
@@ -85,17 +95,13 @@ Theorem C05_no_stale_overwrite_flat : forall c pub o k x,
 Proof. exact no_stale_overwrite_flat. Qed.
 Print Assumptions C05_no_stale_overwrite_flat.
 
-(* FINDING (F7): without the shape condition the statement is false for the code's
-   algorithm - witness: `a: 1` upstream, re-published as `a: {b: 2}` in one branch. *)
-Theorem C05_no_stale_overwrite_nested_refuted :
-  exists c pub o k t x,
-    wf_ctx c /\ wf_value (VDict pub) /\ wf_ctx o /\ k <> TASK_EXECUTION_KEY /\
-    at_path (k :: t) (VDict pub) = Some x /\ is_dict x = false /\
-    (getv (path_str "" (k :: t)) (cvers o) <= getv (path_str "" (k :: t)) (cvers c))%N /\
-    at_path (k :: t) (VDict (cdata (merge_ctx o (outbound c pub)))) <> Some x /\
-    at_path (k :: t) (VDict (cdata (merge_ctx (outbound c pub) o))) = Some x.
-Proof. exact no_stale_overwrite_nested_refuted. Qed.
-Print Assumptions C05_no_stale_overwrite_nested_refuted.
+(* regression: the witness that refuted the statement before the fix (`a: 1` upstream,
+   re-published as `a: {b: 2}` in one branch) is clean in both merge orders *)
+Theorem C05_former_stale_witness_clean :
+  at_path ["a"; "b"] (VDict (cdata (merge_ctx stale_c (outbound stale_c stale_pub)))) = Some (VNum 2) /\
+  at_path ["a"; "b"] (VDict (cdata (merge_ctx (outbound stale_c stale_pub) stale_c))) = Some (VNum 2).
+Proof. exact former_stale_witness_clean. Qed.
+Print Assumptions C05_former_stale_witness_clean.
 
 (* ---- algebra of the merge on conflict-free contexts (also used by C02) ---- *)
 Theorem C05_merge_comm : forall l r, wf_ctx l -> wf_ctx r -> cf_ctx l r ->
@@ -237,38 +243,29 @@ Theorem C05_unpublished_falls_back : forall c pub tid tname env wctx input k,
 Proof. exact unpublished_falls_back. Qed.
 Print Assumptions C05_unpublished_falls_back.
 
-(* ---- which variables a task publishes for its final state ---- *)
-Theorem C05_get_publish_branch_complete : forall tl oc oncl k,
+(* ---- which variables a task publishes for its final state: exactly the declared ones
+        (unconditional since fix f28ee2d0) ---- *)
+Theorem C05_get_publish_branch_exact : forall tl oc oncl k,
   nodup_spec oc -> nodup_spec oncl -> NoDup (map fst tl) ->
-  (forall c, oncl = Some c -> ps_branch c <> None) ->
-  declared_branch tl oc oncl k = true ->
-  result_branch (get_publish tl oc oncl) k = true.
-Proof. exact get_publish_branch_complete. Qed.
-Print Assumptions C05_get_publish_branch_complete.
+  result_branch (get_publish tl oc oncl) k = declared_branch tl oc oncl k.
+Proof. exact get_publish_branch_exact. Qed.
+Print Assumptions C05_get_publish_branch_exact.
 
-Theorem C05_get_publish_global_complete : forall tl oc oncl k,
-  nodup_spec oc -> nodup_spec oncl ->
-  (tl = [] \/ forall o, oc = Some o -> ps_global o = None) ->
-  (forall c, oncl = Some c -> ps_global c <> None) ->
-  declared_global oc oncl k = true ->
-  result_global (get_publish tl oc oncl) k = true.
-Proof. exact get_publish_global_complete. Qed.
-Print Assumptions C05_get_publish_global_complete.
+Theorem C05_get_publish_global_exact : forall tl oc oncl k,
+  nodup_spec oc -> nodup_spec oncl -> NoDup (map fst tl) ->
+  result_global (get_publish tl oc oncl) k = declared_global oc oncl k.
+Proof. exact get_publish_global_exact. Qed.
+Print Assumptions C05_get_publish_global_exact.
 
-(* FINDING (F5): without those side conditions declared variables are dropped *)
-Theorem C05_get_publish_global_complete_refuted :
-  exists tl oc oncl k,
-    nodup_spec oc /\ nodup_spec oncl /\
-    declared_global oc oncl k = true /\ result_global (get_publish tl oc oncl) k = false.
-Proof. exact get_publish_global_complete_refuted. Qed.
-Print Assumptions C05_get_publish_global_complete_refuted.
-
-Theorem C05_get_publish_branch_complete_refuted :
-  exists tl oc oncl k,
-    nodup_spec oc /\ nodup_spec oncl /\ NoDup (map fst tl) /\
-    declared_branch tl oc oncl k = true /\ result_branch (get_publish tl oc oncl) k = false.
-Proof. exact get_publish_branch_complete_refuted. Qed.
-Print Assumptions C05_get_publish_branch_complete_refuted.
+(* regression: the three witnesses of the former defect F5 *)
+Theorem C05_former_f5_witnesses_clean :
+  result_global (get_publish [("x", PLit (VNum 1))]
+                   (Some (mkPS (Some [("y", PLit (VNum 2))]) (Some [("g", PLit (VNum 7))]))) None) "g" = true /\
+  result_branch (get_publish [("x", PLit (VNum 1))] None (Some (mkPS None (Some [("g", PLit (VNum 7))])))) "x" = true /\
+  result_global (get_publish [] (Some (mkPS None (Some [("g", PLit (VNum 7))])))
+                   (Some (mkPS (Some [("x", PLit (VNum 1))]) None))) "g" = true.
+Proof. exact former_f5_witnesses_clean. Qed.
+Print Assumptions C05_former_f5_witnesses_clean.
 
 Theorem C05_get_publish_branch_priority : forall tl ob og cb cg k,
   tl <> [] -> NoDup (map fst tl) -> NoDup (map fst ob) ->
